@@ -421,6 +421,177 @@ fn foreign_root_pass(env: &Env, report: &mut Report, spec: &str, v1: bool) {
     }
 }
 
+/// A peer that answers with the right (proven) header and another body is banned - and must leave
+/// nothing behind. Two honest-looking peers serve a sync in which several matched blocks are
+/// downloaded at once; the k-th SendBlock is replaced by a forgery (same header, a body with one
+/// more / one other / one transaction less, or the body of another matched block); the sender is
+/// disconnected if it gets banned and the sync runs on to quiescence with the remaining peer.
+/// Afterwards the store may hold only what the proven chain contains, the index must be complete
+/// (reference index), and no forged transaction may be reported as committed.
+fn banned_then_continue_pass(env: &Env, report: &mut Report, spec: &str, slow_blocks: bool) {
+    use crate::service::TransactionRpc;
+    use crate::verif::driver::{InFlight, World};
+    use crate::verif::oracle;
+    use crate::verif::props::c03;
+    use crate::verif::scen;
+    let ws = c03::worlds(env);
+    let (wname, chain) = &ws[0];
+    let sets = c03::script_sets(env, chain.tip_number());
+    let (sname, regs) = &sets[1];
+    let cfg = crate::verif::client::ClientCfg { last_n: 3, max_outbound: 2, cp_interval: 4, ..Default::default() };
+    let new_sim = |old: Option<Sim>| -> Sim {
+        let mut world = World::new(vec![chain.clone()], cfg.cp_interval);
+        world.add_peer(1, 0, chain.tip_number());
+        world.add_peer(2, 0, chain.tip_number());
+        world.filter_batch = 1000;
+        world.slow_blocks = slow_blocks;
+        crate::verif::client::set_now(crate::verif::world::BASE_TS + 1_000_000);
+        let mut sim = match old {
+            Some(o) => Sim::recycle(o, cfg.clone(), world),
+            None => scen::new_sim(env, cfg.clone(), world),
+        };
+        crate::verif_hooks::rng_reset(202);
+        let list: Vec<_> = regs.iter().map(|r| (r.script.clone(), if r.is_lock { crate::storage::ScriptType::Lock } else { crate::storage::ScriptType::Type }, r.start)).collect();
+        scen::register(&sim, &list);
+        sim.connect(1);
+        sim.connect(2);
+        sim
+    };
+    // runs the honest history until the k-th SendBlock is at the front of the queue
+    let run_until = |sim: &mut Sim, k: usize| -> bool {
+        let mut seen = 0usize;
+        let mut idle = 0;
+        for _ in 0..3000 {
+            if sim.queue.is_empty() {
+                sim.advance(10);
+                sim.tick_all();
+                idle += 1;
+                if idle > 6 {
+                    return false;
+                }
+                continue;
+            }
+            idle = 0;
+            if kind_of(&sim.queue[0]) == "SendBlock" {
+                if seen == k {
+                    return true;
+                }
+                seen += 1;
+            }
+            sim.deliver(0);
+        }
+        false
+    };
+    let mut old: Option<Sim> = None;
+    let mut k = 0usize;
+    loop {
+        let mut probe = new_sim(old.take());
+        probe.record_trace = std::env::var("VERIF_TRACE").is_ok();
+        if !run_until(&mut probe, k) {
+            if k == 0 {
+                for l in &probe.trace {
+                    eprintln!("  {}", l);
+                }
+                eprintln!("bans {:?}", probe.bans());
+            }
+            old = Some(probe);
+            break;
+        }
+        let honest = probe.queue[0].clone();
+        old = Some(probe);
+        let block = match packed::SyncMessageReader::from_compatible_slice(&honest.data).map(|m| m.to_entity().to_enum()) {
+            Ok(packed::SyncMessageUnion::SendBlock(m)) => m.block(),
+            _ => break,
+        };
+        let number: u64 = block.header().raw().number().unpack();
+        let txs: Vec<packed::Transaction> = block.transactions().into_iter().collect();
+        let forged_tx = crate::verif::txlib::build_tx(
+            &[],
+            &[packed::OutPoint::new(txs[0].calc_tx_hash(), 0)],
+            &[crate::verif::txlib::OutSpec::lock(&env.scripts.a, 55_0000_0000)],
+            0xb0d1 + number,
+        );
+        let other = chain.blocks.iter().skip(1).find(|b| b.number() != number && b.transactions().len() > 1).map(|b| b.data().transactions());
+        let mut variants: Vec<(&str, Vec<packed::Transaction>)> = vec![];
+        let mut plus = txs.clone();
+        plus.push(forged_tx.data());
+        variants.push(("one-more-transaction", plus));
+        if txs.len() > 1 {
+            let mut repl = txs.clone();
+            let last = repl.len() - 1;
+            repl[last] = forged_tx.data();
+            variants.push(("last-transaction-replaced", repl));
+            variants.push(("last-transaction-dropped", txs[..txs.len() - 1].to_vec()));
+        }
+        if let Some(o) = other {
+            variants.push(("body-of-another-block", o.into_iter().collect()));
+        }
+        for (label, body) in variants {
+            let mut sim = new_sim(old.take());
+            if !run_until(&mut sim, k) {
+                old = Some(sim);
+                continue;
+            }
+            let home = sim.queue.pop_front().unwrap();
+            let forged_block = block.clone().as_builder().transactions(body.pack()).build();
+            let msg = packed::SyncMessage::new_builder().set(packed::SendBlock::new_builder().block(forged_block).build()).build();
+            let r = crate::verif::props::panics::catch(|| {
+                sim.deliver_msg(InFlight { proto: crate::verif::net::Proto::Sync, peer: home.peer, data: msg.as_bytes(), note: format!("SendBlock({})[{}]", number, label) });
+                // the network layer drops a banned peer
+                let banned: Vec<usize> = sim.bans().iter().map(|(p, _)| p.value()).collect();
+                for p in &banned {
+                    if sim.world.peer(*p).connected {
+                        sim.disconnect(*p);
+                    }
+                }
+                if banned.is_empty() {
+                    // not refused: the honest twin stays away, the peer goes on serving
+                }
+                sim.converge(120)
+            });
+            report.count("transitions", 1);
+            report.count("banned_then_continue/runs", 1);
+            let converged = match r {
+                Err(p) => {
+                    report.violation(format!("abort/{}", p.site()), format!("{} [forged body {} for block {}, then honest continuation]", p.describe(), label, number), json!({"scenario": "banned-then-continue", "variant": label, "block": number, "spec": spec}));
+                    continue;
+                }
+                Ok((_, _, c)) => c,
+            };
+            if sim.bans().is_empty() {
+                report.count("banned_then_continue/forgery_not_banned", 1);
+            }
+            let mut bad: Vec<(String, String)> = inv_committed(&sim, chain).into_iter().map(|b| ("uncommitted-data-stored".to_owned(), b)).collect();
+            bad.extend(oracle::judge_index(sim.c(), chain, regs, converged));
+            if !converged {
+                bad.push(("stall".into(), "no quiescence after the forged body".into()));
+            }
+            if let Ok(t) = sim.c().rpc_tx().get_transaction(forged_tx.hash().unpack()) {
+                let v = serde_json::to_value(&t).unwrap_or_default();
+                if v["status"] == "committed" {
+                    bad.push(("forged-transaction-committed".into(), format!("get_transaction reports the forged transaction {:#x} as committed", forged_tx.hash())));
+                }
+            }
+            for (class, items) in oracle::group(bad) {
+                report.violation(
+                    format!("after-forged-body/{}/{}", class, label),
+                    format!("[{}/{}{}] SendBlock({}) with the proven header and a forged body ({}) from peer {}, sender dropped if banned, honest continuation: {}", wname, sname, if slow_blocks { "/slow-blocks" } else { "" }, number, label, home.peer, items[0]),
+                    json!({"scenario": "banned-then-continue", "variant": label, "block": number, "kth_send_block": k, "spec": spec, "slow_blocks": slow_blocks, "all": items.iter().take(6).collect::<Vec<_>>()}),
+                );
+            }
+            old = Some(sim);
+        }
+        k += 1;
+        if k > 40 {
+            break;
+        }
+    }
+    report.count("banned_then_continue/send_block_positions", k as u64);
+    if k == 0 {
+        report.violation("vacuous/banned-then-continue".to_owned(), "no SendBlock in the history".to_owned(), json!({}));
+    }
+}
+
 const HOME_SCNS: [Scn; 3] = [Scn::MatchedBlocksProof, Scn::MatchedBlocks, Scn::FetchProofs];
 
 pub(crate) fn run(opts: &Opts, report: &mut Report) {
@@ -438,8 +609,13 @@ pub(crate) fn run(opts: &Opts, report: &mut Report) {
     let sweep_items = grid.len() * scns.len() * CHUNKS;
     // + the foreign-chain-root forgeries (V0, V1; thorough: also Eaglesong)
     let foreign: Vec<(&'static str, bool)> = if thorough { vec![("mini_dummy.toml", false), ("mini_dummy.toml", true), ("mini_eaglesong.toml", false), ("mini_eaglesong.toml", true)] } else { vec![("mini_dummy.toml", false), ("mini_dummy.toml", true)] };
-    let items = sweep_items + foreign.len();
+    let items = sweep_items + foreign.len() + 2;
     let worker = crate::verif::props::shard::run("C02", opts, report, items, 16, |item, report| {
+        if item >= sweep_items + foreign.len() {
+            let env = Env::dummy();
+            banned_then_continue_pass(&env, report, "mini_dummy.toml", item - sweep_items - foreign.len() == 1);
+            return;
+        }
         if item >= sweep_items {
             let (spec, v1) = foreign[item - sweep_items];
             let env = Env::new(spec);
